@@ -170,6 +170,16 @@ def run(ctx, out, tier):
                         j += 1
     out.inst("C13.join", j, 8, note="join / join_next / block_on results: every nested Result level is propagated")
     shared.sh_main(ctx, out)
+    # a malformed rule can only be reported if its validator is created at all: the detection loop
+    # asks every pending detector about every block (shared with C14/C11)
+    from rules.C14 import check_once, detect_fn
+    dv = detect_fn(ctx)
+    if dv is not None:
+        check_once(ctx, out, dv, rule="C13.once")
+    else:
+        out.inst("C13.once", 0, 4)
+    for nm in ctx.roles()["validators"]:
+        shared.sh_visit(ctx, out, nm, rule="C13.visit")
     return meta()
 
 
